@@ -13,7 +13,7 @@ from vt.gfi import AbsGF, AbsTrace, abstract_distribution, enc, enc_args, sel_id
 from vt.maps import SymDict, SymSet
 from vt.sym import Atom, EngineLimit, PathSort, Sym, V, _lift, atom_sym, boolean, engine, fresh, real, value
 from . import _patch  # noqa: F401
-from .selection import EPS, AbsSel, den
+from .selection import EPS, AbsSel, den, mk_selection, CONCRETE_SEL
 
 core = loader.load("core")
 
@@ -211,10 +211,12 @@ class DistUpdate(_DistBase):
 class DistRegenerate(_DistBase):
     """resampled iff Sel(s, eps) — the same predicate Distribution.filter uses (C16)"""
 
+    cases = _DistBase.cases + ["args_only:" + c for c in CONCRETE_SEL]
+
     def call(self, case):
-        self.mk(case)
+        self.mk(case.split(":sel=")[0])
         tr = self.old_trace()
-        self.s = core.Selection(AbsSel.fresh("S"))
+        self.s = mk_selection(case)
         return self.real(self.fn, self.d, tr, self.s, *self.args, **self.kwargs)
 
     def ensures(self, case, path):
@@ -708,10 +710,11 @@ class FnUpdate(_FnEdit):
 @contract("genjax.core:Fn.regenerate", ["C04", "C05", "C09", "C16"])
 class FnRegenerate(_FnEdit):
     handler_cls = core.Regenerate
+    cases = _FnEdit.cases + ["empty_stack:args_only:" + c for c in CONCRETE_SEL]
 
     def call(self, case):
-        self.mk(case)
-        self.s = core.Selection(AbsSel.fresh("S"))
+        self.mk(case.split(":sel=")[0])
+        self.s = mk_selection(case)
         return self.real(self.fn, self.f, self.old(), self.s, *self.args, **self.kwargs)
 
     def ensures(self, case, path):
